@@ -383,6 +383,46 @@ def false_edge(fn, call_or_local):
     return fn.edge_of(site, "true" if neg else "false")
 
 
+def and_flag_edges(fn, call):
+    """(true_edge, false_edge) of the decision that `call`'s bool result takes part in as the last conjunct:
+    the call's own switch, or the switch on a flag all of whose definitions are `false` or the call's result
+    (`match opt { Some(x) => test(x), None => false }`, `opt.is_some() && test(..)` bound to a name).
+    true edge taken  => the call returned true;   false edge taken => the call returned false or was not reached."""
+    te, fe = true_edge(fn, call), false_edge(fn, call)
+    if te and fe:
+        return te, fe
+    rl = call.dest[0]
+    for site, t in fn.switches():
+        if t["dty"] != "bool":
+            continue
+        p = op_place(t["discr"])
+        if p is None or p[1]:
+            continue
+        local, neg, ds = _flag_defs(fn, p[0])
+        if not ds:
+            continue
+        uses = False
+        ok = True
+        for dsite, kind, st in ds:
+            if kind == "call":
+                if dsite.bb == call.bb and local == rl:
+                    uses = True
+                else:
+                    ok = False
+                continue
+            rv = st["rv"]
+            if rv["k"] == "use" and rv["op"].get("k") == "const" and rv["op"].get("val") == "false":
+                continue
+            src = op_place(rv["op"]) if rv["k"] == "use" else None
+            if src is not None and not src[1] and src[0] == rl:
+                uses = True
+                continue
+            ok = False
+        if ok and uses:
+            return fn.edge_of(site, "false" if neg else "true"), fn.edge_of(site, "true" if neg else "false")
+    return te, fe
+
+
 CMP = {"ge": ">=", "gt": ">", "le": "<=", "lt": "<", "eq": "==", "ne": "!="}
 
 
@@ -464,8 +504,40 @@ def status_gates_at(fn, site, fresh_only=True, subject=None):
         elif fresh_only and not any(r["k"] == "call" and (r["call"].is_("get_status") or r["call"].matches(r"Actor(Cell|Properties)::set_status$")) for r in s["subject"]):
             continue
         for edge, pol in ((s["true_edge"], True), (s["false_edge"], False)):
-            if edge and fn.edge_dominates(edge, site):
+            if edge and (fn.edge_dominates(edge, site) or (pol and edge_guards(fn, edge, site, s["call"].dest[0] if s.get("call") is not None and hasattr(s["call"], "dest") else None))):
                 out.append((s, pol))
+        # `let flag = status >= X && ..; if flag {..}`: the comparison has no switch of its own, its result *is* (part of) the flag
+        if s["true_edge"] is None and s.get("call") is not None and hasattr(s["call"], "dest"):
+            rl = s["call"].dest[0]
+            for bsite, bt in fn.switches():
+                if bt["dty"] != "bool":
+                    continue
+                bp = op_place(bt["discr"])
+                if bp is None or bp[1]:
+                    continue
+                fl, neg, ds = _flag_defs(fn, bp[0])
+                te = fn.edge_of(bsite, "false" if neg else "true")
+                if not te or not fn.edge_dominates(te, site):
+                    continue
+                vals_ok = True
+                uses_test = False
+                for dsite, kind, st in ds:
+                    if kind == "call":
+                        if fl == rl:
+                            uses_test = True
+                        else:
+                            vals_ok = False
+                        continue
+                    rv = st["rv"]
+                    if rv["k"] == "use" and rv["op"].get("k") == "const" and rv["op"].get("val") == "false":
+                        continue
+                    src = op_place(rv["op"]) if rv["k"] == "use" else None
+                    if src is not None and not src[1] and src[0] == rl:
+                        uses_test = True
+                        continue
+                    vals_ok = False
+                if (fl == rl) or (vals_ok and uses_test):
+                    out.append((s, True))
     # `match status { A | B => .., _ => .. }` / `matches!(status, A | B)`: a switch on the discriminant of a status value
     for sw_site, t in fn.switches():
         info = fn.switch_info(sw_site)
@@ -661,7 +733,9 @@ def edge_path_sites(fn, edges):
     """sites reachable only... helper: sites reachable from the head of an edge"""
     out = set()
     for (a, b) in edges:
-        out |= fn.reach(Site(b, 0))
+        for bb in fn.feasible_blocks_from(b):
+            for i in range(fn.nstmts(bb) + 1):
+                out.add(Site(bb, i))
     return out
 
 
@@ -894,31 +968,81 @@ def flag_true_sites(fn, switch_site):
     return trues, falses
 
 
-def edge_guards(fn, edge, target):
-    """target executes only if `edge` was taken: plain edge dominance, or dominance through a `matches!`-style flag (the edge
-    decides a bool that is tested later -- either polarity, possibly through one negation)"""
+def _flag_defs(fn, local):
+    """assignments that define a bool local, looking through plain copies and negations: returns (local, negated, defs)"""
+    neg = False
+    whole = lambda l: [d for d in fn.defs().get(l, []) if d[1] in ("assign", "call")]
+    ds = whole(local)
+    for _ in range(4):
+        if len(ds) == 1 and ds[0][1] == "assign" and ds[0][2]["rv"]["k"] == "use" and op_place(ds[0][2]["rv"]["op"]) is not None and not op_place(ds[0][2]["rv"]["op"])[1] and not ds[0][2]["lhs"][1]:
+            nl = op_place(ds[0][2]["rv"]["op"])[0]
+            nds = whole(nl)
+            if not nds:
+                break
+            local, ds = nl, nds
+        elif len(ds) == 1 and ds[0][1] == "assign" and ds[0][2]["rv"]["k"] == "un" and ds[0][2]["rv"]["op"] == "Not" and op_place(ds[0][2]["rv"]["a"]) is not None and not op_place(ds[0][2]["rv"]["a"])[1]:
+            neg = not neg
+            local = op_place(ds[0][2]["rv"]["a"])[0]
+            ds = whole(local)
+        else:
+            break
+    return local, neg, ds
+
+
+def edge_guards(fn, edge, target, result_local=None, _depth=0):
+    """`target` executes only if `edge` was taken.  Plain edge dominance, or dominance through a bool that is decided on
+    that edge and tested later: the lowering of `matches!`, of `let flag = a && b; if flag {..}`, of `if !(a || b)`.
+    A later two-way switch on a local f stands for the edge when one of its edges dominates the target and every definition
+    of f that can produce that switch value lies behind `edge` (or *is* the value of the test itself, `result_local`)."""
     if fn.edge_dominates(edge, target):
         return True
+    if _depth > 3:
+        return False
     for site, t in fn.switches():
         if t["dty"] != "bool":
             continue
-        ft = flag_true_sites(fn, site)
-        if not ft:
-            continue
-        # is the switch's operand the flag itself or its negation?
         p = op_place(t["discr"])
-        neg = False
-        if p is not None:
-            ds = [d for d in fn.defs().get(p[0], []) if d[1] == "assign"]
-            if len(ds) == 1 and ds[0][2]["rv"]["k"] == "un" and ds[0][2]["rv"]["op"] == "Not":
-                neg = True
-        for val, sites in (("true", ft[0]), ("false", ft[1])):
-            if not sites:
-                continue
+        if p is None or p[1]:
+            continue
+        local, neg, ds = _flag_defs(fn, p[0])
+        if not ds:
+            continue
+        for val in ("true", "false"):
             e2 = fn.edge_of(site, other_bool(val) if neg else val)
-            if not (e2 and fn.edge_dominates(e2, target)):
+            if not e2 or e2 == edge:
                 continue
-            if all(fn.edge_dominates(edge, s_) for s_ in sites):
+            if not (fn.edge_dominates(e2, target) or (_depth < 2 and edge_guards(fn, e2, target, None, _depth + 3))):
+                continue
+            ok = True
+            some = False
+            for dsite, kind, st in ds:
+                if kind == "call":
+                    # f = some_call(..): behind the edge, or the test's own call (f is true only if the test was)
+                    if fn.edge_dominates(edge, dsite) or (val == "true" and result_local is not None and local == result_local):
+                        some = True
+                        continue
+                    ok = False
+                    break
+                rv = st["rv"]
+                if rv["k"] == "use" and rv["op"].get("k") == "const" and rv["op"].get("val") in ("true", "false"):
+                    if rv["op"]["val"] != val:
+                        continue                # this definition cannot make the switch take e2
+                    if fn.edge_dominates(edge, dsite):
+                        some = True
+                        continue
+                    ok = False
+                    break
+                # a computed value
+                if fn.edge_dominates(edge, dsite):
+                    some = True
+                    continue
+                src = op_place(rv["op"]) if rv["k"] == "use" else None
+                if val == "true" and result_local is not None and src is not None and not src[1] and src[0] == result_local:
+                    some = True                 # f = the test's own result: f is true only if the test was
+                    continue
+                ok = False
+                break
+            if ok and some:
                 return True
     return False
 
